@@ -287,9 +287,27 @@ class Module:
             self.all_ = names
 
     def global_writes(self) -> set:
-        """Module-level names some function declares ``global`` (they are rebound at run time)."""
+        """Module-level names whose value changes at run time: declared ``global`` in some function (rebound), or a
+        module-level container that a function of the module mutates in place (``N[k] = v``, ``N.update(..)``, ...)."""
         if not hasattr(self, '_gw'):
-            self._gw = {n for g in ast.walk(self.tree) if isinstance(g, ast.Global) for n in g.names}
+            gw = {n for g in ast.walk(self.tree) if isinstance(g, ast.Global) for n in g.names}
+            mut = {'append', 'extend', 'insert', 'remove', 'pop', 'clear', 'sort', 'reverse', 'update', 'setdefault',
+                   'add', 'discard', 'popitem', 'move_to_end', 'appendleft'}
+            for fn in ast.walk(self.tree):
+                if not isinstance(fn, (ast.FunctionDef, ast.AsyncFunctionDef)):
+                    continue
+                local = {a.arg for a in ast.walk(fn.args) if isinstance(a, ast.arg)} | \
+                        {x.id for x in ast.walk(fn) if isinstance(x, ast.Name) and isinstance(x.ctx, ast.Store)}
+                for x in ast.walk(fn):
+                    tgt = None
+                    if isinstance(x, ast.Call) and isinstance(x.func, ast.Attribute) and x.func.attr in mut \
+                            and isinstance(x.func.value, ast.Name):
+                        tgt = x.func.value.id
+                    elif isinstance(x, ast.Subscript) and isinstance(x.ctx, (ast.Store, ast.Del)) and isinstance(x.value, ast.Name):
+                        tgt = x.value.id
+                    if tgt and tgt not in local and tgt in self.assigns:
+                        gw.add(tgt)
+            self._gw = gw
         return self._gw
 
     def public_names(self) -> List[str]:
